@@ -5,7 +5,7 @@
 import os, sys
 sys.path.insert(0, os.path.join(os.environ.get("AIOFTP_REPO", "/repo"), "src"))
 OBLIGATION = 'aioftp.server:Server.user#SEQ::<unit>/exit:I1-logged-implies-authorised-user'
-MODEL = {'u_new_home!806': 'Empty(Seq(String))', 'auth_ok!30': True, 'srv_rest!804': 1, 'srv_max!1': 1, 'u_cur_home!801': 'Empty(Seq(String))', 'block_size!0': 1, 'acquired!10': True, 'srv_value!28': 0, 'cwd!802': 'Empty(Seq(String))', 'restart_offset!11': 0, 'logged_done!15': True, 'user_done!13': True, 'user_present!12': True, 'throttle_per_user_has!33': False, 'current_directory_done!17': True, 'current_directory_present!16': True, 'rename_from_present!18': True, 'logged_present!14': True, 'srv_value!29': 0}
+MODEL = {'cwd!678': 'Empty(Seq(String))', 'restart_offset!11': 0, 'block_size!0': 1, 'acquired!10': True, 'srv_rest!680': 1, 'u_new_home!682': 'Empty(Seq(String))', 'srv_max!1': 1, 'srv_value!28': 0, 'u_cur_home!677': 'Empty(Seq(String))', 'auth_ok!30': True, 'logged_done!15': True, 'user_done!13': True, 'user_present!12': True, 'throttle_per_user_has!33': False, 'current_directory_done!17': True, 'current_directory_present!16': True, 'rename_from_present!18': True, 'logged_present!14': True, 'srv_value!29': 0}
 SOLVER_NOTE = ''
 
 print("obligation", OBLIGATION, "failed; no concrete failing input could be constructed automatically")
